@@ -11,7 +11,7 @@ import (
 )
 
 func init() {
-	register(&Rule{ID: "SPEC-abstract-equality", Props: []string{"C05"}, Min: 36,
+	register(&Rule{ID: "SPEC-abstract-equality", Props: []string{"C05"}, Min: 36, SubsumedBy: "SPEC-comparison-eval",
 		Doc: "S (ES5 §11.9.3, the abstract equality comparison): the case analysis of `==` in calculateComparison is executed abstractly for every ordered pair of the six script-visible kinds. The case conditions are evaluated over the kind constants (whatever their spelling: ==, <=, &&, ||), the selected arm is interpreted (answer true / false, compare as numbers, compare as same kind, retry with ToNumber of a boolean operand, retry with ToPrimitive of an object operand, the primitive being any of the five primitive kinds), and the set of terminal outcomes reached is compared with the set the ten steps of §11.9.3 reach for that pair. Reordering the cases is harmless if the outcomes agree; a changed bound, a swapped operand or a missing step changes the outcome of some pair",
 		Run: ruleSpecAbstractEquality})
 	register(&Rule{ID: "SPEC-typeof", Props: []string{"C05", "C01"}, Min: 7,
